@@ -11,6 +11,7 @@ import (
 
 	"github.com/hashicorp/nodeenrollment"
 	"github.com/hashicorp/nodeenrollment/protocol"
+	"github.com/hashicorp/nodeenrollment/registration"
 	"github.com/hashicorp/nodeenrollment/types"
 	vclock "github.com/hashicorp/nodeenrollment/zz_verif/vclock"
 	"google.golang.org/protobuf/proto"
@@ -33,7 +34,7 @@ type kase struct {
 var stateNames = []string{"absent", "empty", "flat", "nested", "4k", "20k", "40k"}
 var extraNames = []string{"none", "one", "five", "duplicates", "fetch-like", "preference-like", "auth-like-last", "odd-names", "preference-entry-first"}
 
-var clientKinds = []string{"dial", "handbuilt", "handbuilt-preference-first", "handbuilt-preference-between-chunks", "forged-state", "forged-state+skip", "swapped-state", "swapped-state+skip", "unsigned-state", "unsigned-state+skip"}
+var clientKinds = []string{"dial", "dial-first-time", "handbuilt", "handbuilt-preference-first", "handbuilt-preference-between-chunks", "forged-state", "forged-state+skip", "swapped-state", "swapped-state+skip", "unsigned-state", "unsigned-state+skip"}
 
 func stateOf(n string) *structpb.Struct {
 	switch n {
@@ -133,8 +134,37 @@ func (w *world) one(k kase, r *engine.Report) (string, string) {
 	if k.ListenerOpts {
 		lopt = []nodeenrollment.Option{nodeenrollment.WithState(harness.Struct(map[string]any{"this-is": "the server's own state"})), nodeenrollment.WithExtraAlpnProtos([]string{"servers-own-proto"})}
 	}
-	rs, err := harness.Serve(harness.ServerConfig{Storage: w.st.Clone(), Options: lopt}, func(addr string) {
+	srv := w.st.Clone()
+	rs, err := harness.Serve(harness.ServerConfig{Storage: srv, Options: lopt, Unix: true}, func(addr string) {
 		switch k.Client {
+		case "dial-first-time":
+			// a node the operator has authorized but that has not fetched its
+			// credentials yet: this one Dial fetches them and then authenticates,
+			// and what it supplies belongs to the authentication it ends with
+			nodeStore := harness.NewMemStore()
+			creds, e := types.NewNodeCredentials(harness.Ctx, nodeStore)
+			if e != nil {
+				panic(e)
+			}
+			freq, e := creds.CreateFetchNodeCredentialsRequest(harness.Ctx)
+			if e != nil {
+				panic(e)
+			}
+			if _, e := registration.AuthorizeNode(harness.Ctx, srv, freq); e != nil {
+				panic(e)
+			}
+			var o []nodeenrollment.Option
+			if st != nil {
+				o = append(o, nodeenrollment.WithState(st))
+			}
+			if extras != nil {
+				o = append(o, nodeenrollment.WithExtraAlpnProtos(extras))
+			}
+			conn, e := protocol.Dial(harness.Ctx, nodeStore, addr, o...)
+			dialErr = e
+			if conn != nil {
+				conn.Close()
+			}
 		case "dial":
 			var o []nodeenrollment.Option
 			if st != nil {
@@ -266,7 +296,7 @@ func (w *world) one(k kase, r *engine.Report) (string, string) {
 
 // unverifiable reports the client kinds whose state signature cannot verify.
 func unverifiable(client string) bool {
-	return client != "dial" && !strings.HasPrefix(client, "handbuilt")
+	return !strings.HasPrefix(client, "dial") && !strings.HasPrefix(client, "handbuilt")
 }
 
 func firstDiff(a, b []string) string {
@@ -346,7 +376,7 @@ func init() {
 	engine.Register(&engine.CheckDef{
 		ID:    "C16",
 		Level: "exploration",
-		Rule: "client state {absent, empty, flat, nested 3 levels, 4 KiB, 20 KiB, 40 KiB} x extra ALPN lists {none, one, five, duplicates, fetch-prefix-like, preference-like, auth-like, odd names incl. the split listener's reserved ones and a 255-byte name} through the real Dial and through a hand-built client whose offered list is known exactly (certificate-preference entry last, first, and between the request's chunks), plus the same with a state signature that cannot verify {signed by another key, the node's signature over a different state, absent} each with and without the request's skip_verification flag set by the client; every case against a listener without options and against one whose own option list carries a state and an extra-protocol option; oracle evaluated only on authenticated connections; " +
+		Rule: "client state {absent, empty, flat, nested 3 levels, 4 KiB, 20 KiB, 40 KiB} x extra ALPN lists {none, one, five, duplicates, fetch-prefix-like, preference-like, auth-like, odd names incl. the split listener's reserved ones and a 255-byte name} through the real Dial (of an enrolled node, and of an authorized node whose first Dial fetches its credentials and then authenticates) and through a hand-built client whose offered list is known exactly (certificate-preference entry last, first, and between the request's chunks), plus the same with a state signature that cannot verify {signed by another key, the node's signature over a different state, absent} each with and without the request's skip_verification flag set by the client; every case against a listener without options and against one whose own option list carries a state and an extra-protocol option; oracle evaluated only on authenticated connections; " +
 			"distinct_nontrivial counts cases (distinct by construction) whose connection authenticated (or, for forged state, was judged)",
 		Assumptions: []string{"an empty client state and an absent one are treated as the same value (both carry no fields)", "states too large for a ClientHello do not authenticate and are counted, not judged"},
 		Shards:      func(c *engine.Ctx) int { return 8 },
